@@ -579,9 +579,16 @@ def _array_comp_helper(a, b):
     if bu != au and au != NULL_UNIT and bu != NULL_UNIT:
         b = b.in_units(au)
     elif bu == NULL_UNIT:
-        b = np.array(b) * au
+        if au.is_dimensionless:
+            # a plain number is dimensionless: 100 percent is 1, not 100
+            b = (np.array(b) * NULL_UNIT).in_units(au)
+        else:
+            b = np.array(b) * au
     elif au == NULL_UNIT:
-        a = np.array(a) * bu
+        if bu.is_dimensionless:
+            a = (np.array(a) * NULL_UNIT).in_units(bu)
+        else:
+            a = np.array(a) * bu
 
     return a, b
 
